@@ -29,6 +29,7 @@
 #include "../common/infra/AccessSpecifiers.h"
 
 #include <memory>
+#include <string>
 
 namespace psy {
 namespace C {
@@ -42,6 +43,12 @@ PSY_INTERNAL:
 
 private:
     std::unique_ptr<NameCatalog> catalog_;
+
+    Disambiguation disambiguateByDeclarationBefore(
+            const SyntaxNode* node,
+            const std::string& name,
+            Disambiguation asTypeName,
+            Disambiguation asNonTypeName) const;
 
     virtual Disambiguation disambiguateExpression(const AmbiguousCastOrBinaryExpressionSyntax*) const override;
     virtual Disambiguation disambiguateStatement(const AmbiguousExpressionOrDeclarationStatementSyntax*) const override;
